@@ -187,7 +187,7 @@ func AddStandardFilters(fd FilterDictionary) { //nolint: gocyclo
 		if pl < 0 {
 			// to tens, hundreds...: dividing by a power of ten is exact where multiplying by 0.1 is not
 			p := math.Pow10(-pl)
-			if math.IsInf(p, 0) {
+			if math.IsInf(p, 0) || p == 0 { // p == 0: -pl overflowed for the most negative int
 				// rounding to a magnitude beyond every float64
 				return 0
 			}
